@@ -92,6 +92,9 @@ func (x *exec) menu(core bool) []string {
 	if _, _, ok := x.lowestConfirmed(); ok {
 		m = append(m, "in:chan:bound")
 	}
+	if x.pendingBind() != nil {
+		m = append(m, "in:chan:requested")
+	}
 	// an unanswered transaction: to the instant just after it has failed (before the periodic timers act on the failure)
 	for _, p := range x.out {
 		if p.dropped {
